@@ -6,7 +6,7 @@
    Every statement is for ALL histories of register / register-fallback /
    unregister and ALL called paths; each also says that the model neither
    faults (array index out of range) nor runs out of fuel. *)
-From DV Require Import Lib.Base ObjTree.ObjTree Spec.ObjtreeSpec Proofs.ObjtreeOrder Proofs.ObjtreeProofs.
+From DV Require Import Lib.Base ObjTree.ObjTree Spec.ObjtreeSpec Proofs.ObjtreeOrder Proofs.ObjtreeProofs Proofs.ObjtreeOracle.
 From Coq Require Import Sorted.
 
 (* (1) offered first to the exact handler, then to the fallbacks of successively
@@ -80,6 +80,28 @@ Print Assumptions C20_error_root_fallback.
 Theorem C20_error_refuted : ~ C20_error_full_statement.
 Proof. exact error_refuted. Qed.
 Print Assumptions C20_error_refuted.
+
+(* (6) the executable specification oracle evaluated by the correspondence run
+   (s_children, s_dispatch, s_known_object_b) is tied to the statements above:
+   the model's child listing EQUALS the oracle's, the invoked handlers equal the
+   oracle's, and the outcome differs from the oracle's only in the F12 direction
+   (UnknownMethod where the oracle says UnknownObject) *)
+Theorem C20_children_oracle : forall ops p,
+  exists t, run ops = Ok t /\ list_registered t p = Ok (s_children (s_run ops) p).
+Proof. exact children_oracle. Qed.
+Print Assumptions C20_children_oracle.
+
+Theorem C20_dispatch_oracle : forall ops p accepts,
+  exists t inv out, run ops = Ok t /\ tree_dispatch t p accepts = Ok (inv, out) /\
+    inv = fst (s_dispatch (s_run ops) p accepts) /\
+    (out = snd (s_dispatch (s_run ops) p accepts) \/
+     (out = UnknownMethod /\ snd (s_dispatch (s_run ops) p accepts) = UnknownObject)).
+Proof. exact dispatch_oracle. Qed.
+Print Assumptions C20_dispatch_oracle.
+
+Theorem C20_known_object_oracle : forall s p, s_known_object_b s p = true <-> s_known_object s p.
+Proof. exact known_object_b_correct. Qed.
+Print Assumptions C20_known_object_oracle.
 
 (* the stale-flag variant of the same defect: after register-fallback /a,
    register /a/b, unregister /a, a call to /a/x still counts as a known object
